@@ -123,6 +123,8 @@ fn oracle(c: &BatchCase) -> Verdict {
     let mut neg_step = false;
     if n >= 2 {
         let gt = GaloisTool::new(c.logn as usize);
+        // the public plaintext-level entry point (BFV and BGV batch plaintexts alike), when the context has a Galois tool
+        let ev = if ctx.using_keyswitching() { Some(Evaluator::new(ctx.clone())) } else { None };
         let steps: Vec<isize> = if half <= 1 { vec![0] } else if n <= 64 { (-(half as isize - 1)..=(half as isize - 1)).collect() } else {
             let s = (c.step as isize).rem_euclid(2 * half as isize - 1) - (half as isize - 1); vec![0, s, 1, -1, half as isize - 1, -(half as isize - 1)] };
         let m = Modulus::new(t);
@@ -132,6 +134,12 @@ fn oracle(c: &BatchCase) -> Verdict {
             gt.apply(&poly, elt, &m, &mut out);
             // the polynomial map must be X -> X^elt
             if n <= 256 { check!(out == rm::galois_coeff(&poly, elt as u64, t), "GaloisTool::apply is not X -> X^{elt} (N={n})"); }
+            if let Some(ev) = &ev {
+                match catch(|| ev.apply_galois_plain_new(&p1, elt)) {
+                    Ok(q) => { let mut d = q.data().clone(); d.resize(n, 0); check!(d == out && !q.is_ntt_form(), "Evaluator::apply_galois_plain (element {elt}, {:?}) differs from the automorphism X -> X^{elt} modulo t (N={n}, t={t})", c.scheme); }
+                    Err(p) => return fail(format!("Evaluator::apply_galois_plain (element {elt}, {:?}) panicked on a batch-encoded plaintext: {p}", c.scheme)),
+                }
+            }
             let dec = be.decode_new(&be.encode_polynomial_new(&out));
             let want: Vec<u64> = if s == 0 { (0..n).map(|i| v1p[(i + half) % n]).collect() } else {
                 let r = s.rem_euclid(half as isize) as usize;
